@@ -9,12 +9,14 @@ from .. import conv, env, gen, oracles
 ID, TITLE, LEVEL = 'C05', 'geometry preservation', 'exploration'
 RULE = ('case = one regular source with axis triples (start, step, count) drawn per axis from starts {0, +-1, +-2^20, '
         '+-(2^31 - |step|*count)}, steps {+-1, +-2, +-7, +-1000}, counts 2..40, sample interval from {1, 7, 125, 250, 500, '
-        '1000, 1001, 1999, 2000, 3333, 4000, 4001, 12345, 32767} us and start time from {0, +-1, +-100, -32768, 32767} ms, '
-        'through the SEG-Y or the NumPy route; reader and emulator axes/counts/flags compared with segyio on the source '
+        '1000, 1001, 1999, 2000, 3333, 4000, 4001, 12345, 32767, 32768, 65535} us (the last two are stored as negative 16-bit values, the reference being what segyio reports) and start time from {0, +-1, +-100, -32768, 32767} ms, '
+        'through the SEG-Y or the NumPy route, or a ZGY file written through pyzgy (float sample start / increment, reference = pyzgy on the file); reader and emulator axes/counts/flags compared with segyio on the source '
         '(integers exact, len(zslices) exact, samples within 1e-6 relative); a third of the cases re-check after crop, '
         're-block or export. distinct = (axis classes, interval, start, route, follow-up); non-trivial = every case')
 ASSUMPTIONS = ['segyio reports the true geometry of the generated SEG-Y (O-SRC)']
-INTERVALS = [1, 7, 125, 250, 500, 1000, 1001, 1999, 2000, 3333, 4000, 4001, 12345, 32767]
+INTERVALS = [1, 7, 125, 250, 500, 1000, 1001, 1999, 2000, 3333, 4000, 4001, 12345, 32767, 32768, 65535]
+ZGY_DZ = [4.0, 2.0, 0.5, 0.25, 2.5, 0.125, 1.001, 3.333, 12.345, 0.001]
+ZGY_Z0 = [0.0, 100.0, -12.0, 8.5, -100.25, 0.001]
 T0S = [0, 1, -1, 100, -100, -32768, 32767]
 STEPS = [1, -1, 2, -2, 7, -7, 1000, -1000]
 
@@ -52,6 +54,21 @@ def cases(tier, seed):
         follow = rng.choice([None, None, 'crop', 'reblock', 'export'])
         out.append({'id': 'g:%d' % i, 'il': il[:3], 'xl': xl[:3], 'ilk': il[3], 'xlk': xl[3], 'dt': dt, 't0': t0, 'nz': nz, 'route': route,
                     'follow': follow, 'fmt': rng.choice([1, 5]), 'rate': 2 if follow == 'reblock' else rng.choice([4, 8, 1]), 'cost': 1})
+    # ZGY sources written through pyzgy: float sample axis (start and increment need not be whole ms); line numbers are kept in
+    # [0, 2^24] (ZGY annotation is float32) because pyzgy's own accessors cannot address a negative line number
+    for j in range(n // 8):
+        axes = []
+        for _ in range(2):
+            count = rng.choice([2, 3, 4, 5, 7, 8, 9, 16, 17])
+            step = rng.choice(STEPS)
+            kind = rng.choice(['0', '+1', '+2^20', 'max'])
+            lo = {'0': 0, '+1': 1, '+2^20': 2 ** 20, 'max': 2 ** 24 - abs(step) * (count + 1)}[kind]   # ZGY stores the annotation as float32: line numbers up to 2^24
+            axes.append([lo if step > 0 else lo + abs(step) * (count - 1), step, count, kind])
+        il, xl = axes
+        follow = rng.choice([None, None, 'crop', 'reblock'])
+        out.append({'id': 'zgy:%d' % j, 'il': il[:3], 'xl': xl[:3], 'ilk': il[3], 'xlk': xl[3], 'dt': 0, 't0': 0, 'dz': ZGY_DZ[j % len(ZGY_DZ)],
+                    'z0': ZGY_Z0[(j // len(ZGY_DZ)) % len(ZGY_Z0)], 'nz': rng.choice([2, 3, 5, 9, 50]), 'route': 'zgy', 'follow': follow,
+                    'fmt': 5, 'rate': 2 if follow == 'reblock' else rng.choice([4, 8, 1]), 'cost': 2})
     return out
 
 
@@ -96,6 +113,14 @@ def run_case(case, ctx):
             s_il, s_xl, s_z, s_n = np.array(f.ilines), np.array(f.xlines), np.array(f.samples, dtype=np.float64), f.tracecount
         # thorough detection: square cubes whose inline and crossline numbers agree on first and last trace are outside the heuristic's precondition
         conv.convert_segy(sgy, out, case['rate'], (4, 4, -1), detection='thorough')
+    elif case['route'] == 'zgy':
+        import pyzgy
+        zgy = sc.file('s.zgy')
+        conv.write_zgy(zgy, data, (case['il'][0], case['il'][1]), (case['xl'][0], case['xl'][1]), case['z0'], case['dz'])
+        with env.quiet():
+            with pyzgy.open(zgy) as f:
+                s_il, s_xl, s_z, s_n = np.array(f.ilines), np.array(f.xlines), np.array(f.samples, dtype=np.float64), f.tracecount
+        conv.convert_zgy(zgy, out, case['rate'], (4, 4, -1))
     else:
         s_il, s_xl, s_n = il, xl, nI * nX
         s_z = case['t0'] + (case['dt'] / 1000.0) * np.arange(nZ)
@@ -133,6 +158,9 @@ def run_case(case, ctx):
                     cv.convert_to_segy(e)
             with segyio.open(e, strict=False) as f:
                 compare('after-export', f.ilines, f.xlines, f.samples, f.tracecount, None, s_il, s_xl, s_z, s_n, bad)
+    if case['route'] == 'zgy':
+        return {'violations': bad, 'counters': {'sources': 1}, 'strata': ['route:zgy', 'zgy-dz:%s' % case['dz'], 'zgy-z0:%s' % case['z0'], 'zgy-follow:%s' % fol],
+                'key': 'zgy|%s|%s|%s|%s|%s|%s' % (case['ilk'], case['il'][1], case['xlk'], case['xl'][1], case['dz'], case['z0'])}
     strata = ['route:' + case['route'], 'dt:%d' % case['dt'], 't0:%d' % case['t0'], 'ilstart:' + case['ilk'], 'xlstart:' + case['xlk'],
               'ilstep:%s' % (case['il'][1] if abs(case['il'][1]) <= 1000 else 'huge'), 'xlstep:%s' % (case['xl'][1] if abs(case['xl'][1]) <= 1000 else 'huge'), 'follow:%s' % fol]
     return {'violations': bad, 'counters': {'sources': 1}, 'strata': strata,
@@ -142,7 +170,8 @@ def run_case(case, ctx):
 def finalize(tier, cases, results, counters, strata):
     reasons = []
     need = ['dt:%d' % d for d in INTERVALS] + ['t0:%d' % t for t in T0S] + ['ilstep:%d' % s for s in STEPS] + \
-           ['ilstart:max', 'ilstart:min', 'xlstart:max', 'xlstart:min', 'ilstart:span', 'xlstart:span', 'route:segy', 'route:numpy', 'follow:crop', 'follow:reblock', 'follow:export']
+           ['ilstart:max', 'ilstart:min', 'xlstart:max', 'xlstart:min', 'ilstart:span', 'xlstart:span', 'route:segy', 'route:numpy', 'route:zgy', 'follow:crop', 'follow:reblock', 'follow:export']
+    need += ['zgy-dz:%s' % d for d in ZGY_DZ] + ['zgy-z0:%s' % z for z in ZGY_Z0[:3]]
     for s in need:
         if s not in strata:
             reasons.append('required stratum not hit: ' + s)
